@@ -139,11 +139,14 @@ func StepWorkflowPaths(wf *workflow.Workflow) map[string]string {
 		if ok1 {
 			kind, ok1 := stepDataMap["kind"]
 			if ok1 {
-				kindString := kind.(string)
-				if kindString == "foreach" {
+				// Values of the wrong type are reported when the workflow is prepared.
+				kindString, isString := kind.(string)
+				if isString && kindString == "foreach" {
 					subworkflowPath := stepDataMap["workflow"]
-					subworkflowPathString := subworkflowPath.(string)
-					stepFilePaths[subworkflowPathString] = subworkflowPathString
+					subworkflowPathString, isString := subworkflowPath.(string)
+					if isString {
+						stepFilePaths[subworkflowPathString] = subworkflowPathString
+					}
 				}
 			}
 		}
